@@ -12,9 +12,12 @@ from framework import Exploration
 from sys_metastaking import TK_LP, TK_STK, TK_OTH, TK_REW, TK_LPF, TK_SF, TK_DY, NUSERS, part_of
 
 ASSUMPTIONS = ["A-VM", "A-U64",
-               "A-ENV: theorems are relative to the interface laws L0-L7 of the LP farm / staking farm / pair; L0-L6 are "
-               "evaluated on every real answer in this run, L1-L3/L6/L7 are lemmas of the farm / pair / safe-price MODELS, "
-               "L4/L5 (farm-staking) are checked on real answers only; the composition real-farm |= law is not re-proved end to end",
+               "A-ENV: the 19 theorems of Props/C15.v are relative to the interface laws L0-L7 of the LP farm / staking farm / pair; "
+               "every law is evaluated on every real answer in this run AND proved on the callee model (L1-L3 farm, L3-L5 staking, L6 pair, "
+               "L7 safe price); Props/C15_closed.v composes proxy and callee models so that no law is assumed (inputs left: the pair's "
+               "safe-price answer, the boosted payouts of the farm models, block/epoch)",
+               "A-V0: stakeFarmTokens whose safe-price value is 0 with merged dual-yield tokens is not executed in the closed exploration "
+               "(Model/StakingPos.v requires amt > 0 for the virtual stake; the real contract accepts it)",
                "A-NFT0: operations that would create a position / dual-yield token of quantity 0 (safe price of the position = 0) "
                "are not executed: the protocol's ESDTNFTCreate rejects quantity 0 (the model says Err), the debug VM's mock accepts it"]
 IMPORTS = "Base.Prelude Gen.Params Model.MetaStaking Run.MetaStakingRun"
@@ -274,10 +277,15 @@ def explore(tier, seed, model_ok=True, focus=False):
                 ex.disagreements.append(dict(where="Run.MetaStakingRun.check_trace", seed=sd, cfg=cfg, index=i, field=r[1],
                                              model=r[2], impl=r[3], op=tr[i][0], observed=strip(tr[i][1]),
                                              ops=[t[0] for t in trace]))
-    return ex
+    # closed composition (callee answers computed by the callee models) and the on-behalf endpoints with a real hub
+    from props import meta_closed_common as mcc
+    return mcc.merge(ex, mcc.explore_meta_closed("C15", tier, seed, model_ok, focus))
 
 
 def replay(data):
+    if data.get("replay", {}).get("system") == "meta_closed":
+        from props import meta_closed_common as mcc
+        return mcc.replay_meta_closed(data)
     rp = data["replay"]
     trace = sm.replay_history(rp["cfg"], rp["ops"])
     fails = []
